@@ -142,7 +142,8 @@ def run(R, replay=None):
     R.rule = ("files assembled from snippets (findings of mixed ranks, nosec comments, blank/comment/whitespace lines, multi-line "
               "strings) x line endings LF/CRLF/CR x BOM x cookie x missing final newline; scanned singly and in groups of 1-4; "
               "per-file block and _totals compared with the Metrics model and with the statement; non-trivial = file with at "
-              "least one finding or one non-code line")
+              "least one finding or one non-code line"
+              "; a file with findings followed by an expression too deep to visit; per-file counts against the findings listed for that file")
     KNOWN_TESTS.update(known_tests())
     n_groups = 120 if R.tier == "quick" else 1500
     fixed = [b"\xef\xbb\xbf# c\nx=1\n", b"", b"\n", b"#\n", b"x=1", b"\r\r\n\n", b"  #x\r\n\t\x0c\n y=1\r"]
